@@ -168,7 +168,35 @@ def run(facts, R):
     sn = [(i, t) for i, t in be.calls() if t["callee"]["name"] == "send_notify"]
     oi = [(i, t) for i, t in be.calls() if t["callee"]["name"] == "insert" and "HashMap" in t["callee"]["path"]]
     nx = [i for i, t in be.calls() if t["callee"]["name"] == "next"]
-    R.check(len(snap) == 1 and len(sn) == 1 and len(oi) == 1 and len(nx) == 1, "broadcast-loop", be.path, "shape", "peers()=%d send=%d insert=%d" % (len(snap), len(sn), len(oi)), be.span)
+    mapped = None
+    if len(snap) == 1 and not sn and not oi:
+        # peers().into_iter().map(|peer| (peer.peer_id(), peer.send_notify(path, body_for(&peer, ..)))).collect()
+        rv = bs.local(0)
+        chain = []
+        cur = rv
+        clo = None
+        while cur[0] == "call" and cur[2]:
+            nm = cur[1].rsplit("::", 1)[-1]
+            chain.append(nm)
+            if nm == "map" and len(cur[2]) == 2:
+                clo = cur[2][1]
+            cur = cur[2][0]
+        if chain == ["collect", "map", "into_iter", "peers"] and clo is not None and clo[0] == "agg" and clo[1].startswith("closure:"):
+            mapped = facts.bodies.get(clo[1].split(":", 1)[1])
+    if mapped is not None:
+        ms = Sym(mapped)
+        msn = [(i, t) for i, t in mapped.calls() if t["callee"]["name"] == "send_notify"]
+        mv = ms.local(0)
+        ok = len(msn) == 1 and mv[0] == "agg" and mv[1] == "tuple" and len(mv[3]) == 2
+        if ok:
+            a = [render_n(ms.op(x)) for x in msn[0][1]["args"]]
+            k, r = mv[3][0][1], mv[3][1][1]
+            ok = a[0].startswith("arg2") and "path" in a[1] and "call_mut(" in a[2] and is_call(k, "peer_id") and render_n(k[2][0]).startswith("arg2") \
+                and r[0] == "call" and r[3] == msn[0][0] and path_counts(mapped, [msn[0][0]]) == (1, 1)
+        R.check(ok, "broadcast-loop", mapped.path, "each snapshot peer gets one send_notify(path, body_for(peer)) and one (peer_id, result) row",
+                "broadcast closure returns %s" % render_n(mv)[:160], mapped.span, "map(|peer| (peer.peer_id(), peer.send_notify(path, body_for(peer))))")
+    else:
+        R.check(len(snap) == 1 and len(sn) == 1 and len(oi) == 1 and len(nx) == 1, "broadcast-loop", be.path, "shape", "peers()=%d send=%d insert=%d" % (len(snap), len(sn), len(oi)), be.span)
     if len(snap) == 1 and len(sn) == 1 and len(oi) == 1 and len(nx) == 1:
         si, st = sn[0]
         a = [render_n(bs.op(x)) for x in st["args"]]
